@@ -4,9 +4,12 @@ ID = "C04"
 LEVEL = "proof"
 TITLE = "Mailbox naming is canonical: mail to an address is fetchable by that address"
 LEVEL_TEXT = ("Coq theorems over every address string and each naming mode (non-empty name, fixed point, name of the address, "
-              "letter-case and +extension insensitivity, read interfaces compute the same name) about an executable model of "
-              "pkg/policy/address.go; the model is tied to the code by a sampled correspondence check; POP3 USER is an open known "
-              "finding (partial there)")
+              "letter-case and +extension insensitivity for every l/e/d when both variants are accepted -- the +ext variant of an accepted "
+              "address need not itself be accepted at the 128/320 limits --, REST/web-UI/monitor interfaces compute the same name) about an "
+              "executable model of pkg/policy/address.go; the model is tied to the code by a sampled correspondence check. PARTIAL for "
+              "'every read interface': the POP3 clause is REFUTED (open finding K-C04-pop3-user): USER <address> reaches the mailbox iff the "
+              "address is its own canonical name, which in local (default) and domain naming is never the case for any accepted address "
+              "(pop3_user_by_address_never_local/_domain); logging in with the mailbox NAME works in every mode (pop3_user_by_name)")
 LEVEL_NOTE = ("theorems are about the Gallina models coq/Model/Addr.v and coq/Model/IpLit.v (net.ParseIP's literal grammar, "
               "transcribed from netip.ParseAddr of the Go toolchain in use and cross-checked against the real net.ParseIP on every "
               "literal body of every case and on a dedicated stream); the theorems carry no hypothesis about net.ParseIP any more; "
@@ -32,8 +35,18 @@ TRUSTED = [
     "the translator's reading of pkg/rest and pkg/webui: every Vars[\"name\"] expression is listed in Gen/AddrConsts.v with whether it is the "
     "argument of MailboxForAddress, and StoreManager.MailboxForAddress is recognised syntactically as `return s.AddrPolicy.ExtractMailbox(x)`",
 ]
-ASSUMPTIONS = ["config.Root.MailboxNaming is one of local/full/domain (config.Process admits nothing else)"]
-NOT_PROVED = []
+ASSUMPTIONS = [
+    "config.Root.MailboxNaming is one of local/full/domain (config.Process admits nothing else)",
+    "no BeforeMessageStored extension (Lua hook) replaces the list of mailboxes a message is stored in: the name fixed at RCPT time is the name delivered to "
+    "(hooks that rewrite recipients are the subject of C17)",
+    "RCPT hands NewRecipient the address as the client wrote it between the angle brackets (the SMTP handler's own treatment of the argument is the subject of C01/C03; "
+    "the live stream goes through the real handler)",
+]
+NOT_PROVED = [
+    "pop3_user_canonical_stmt (Proofs/AddrReadSide.v): 'POP3 USER <address> opens the mailbox the address was delivered to' is FALSE in the model and "
+    "in the code (pop3_user_canonical_refuted; universally false in local and domain naming: pop3_user_by_address_never_local/_domain; open finding "
+    "K-C04-pop3-user); proved instead: pop3_user_by_address_iff (holds exactly for addresses that are their own canonical name) and pop3_user_by_name",
+]
 KNOWN_MUST_REPRODUCE = True
 
 
@@ -118,4 +131,17 @@ def post(run):
         if n:
             dist[k] = {"addresses": n, "accepted_local": round(l / n, 4), "accepted_full": round(f / n, 4), "accepted_domain": round(d / n, 4)}
     dist["addresses_with_non_ascii_bytes"] = nonascii
+    # POP3 USER <address> after a live delivery: [sessions that saw the message, deliveries] per naming mode
+    pop = {"local": [0, 0], "full": [0, 0], "domain": [0, 0]}
+    for line in open(p):
+        if not line.startswith("live "):
+            continue
+        a, _, b = line.rstrip("\n").partition(" => ")
+        ins, outs = a.split(" "), b.split(" ")
+        if len(outs) >= 9 and outs[1] == "250" and outs[2] == "250" and outs[7] != "-":
+            m = {"0": "local", "1": "full", "2": "domain"}.get(ins[1], "domain")
+            pop[m][1] += 1
+            if outs[7] == "P1":
+                pop[m][0] += 1
+    dist["pop3_user_by_address_reached_mailbox"] = pop
     run.cov.setdefault("extra", {})["distribution"] = dist
